@@ -5,7 +5,11 @@ use crate::analyze::validators::its::its_payload_fsm_cont::verif_fsm::{abs_of, f
 use crate::config::check::{CheckModeArgs, CmdPathArg};
 use crate::verif_support::*;
 
-type V = CdpRunningValidator<RdhCru, MockConfig>;
+pub(crate) type V = CdpRunningValidator<RdhCru, MockConfig>;
+
+pub(crate) fn fsm_state_of(v: &V) -> Q {
+    abs_of(&v.its_state_machine)
+}
 
 fn leak_cfg(all: bool, period: Option<u16>) -> &'static MockConfig {
     let mut c = MockConfig::new();
@@ -16,7 +20,7 @@ fn leak_cfg(all: bool, period: Option<u16>) -> &'static MockConfig {
 }
 
 /// validator (no stave target) in FSM variant `k`, current RDH `rb` at `pos`, `words_before` words already seen
-fn validator_in(k: u8, all: bool, period: Option<u16>, rb: &[u8; 64], pos: u64, words_before: u16) -> V {
+pub(crate) fn validator_in(k: u8, all: bool, period: Option<u16>, rb: &[u8; 64], pos: u64, words_before: u16) -> V {
     let mut v = V::new(leak_cfg(all, period), fake_sender());
     v.its_state_machine = fsm_in_variant(k);
     v.set_current_rdh(&RdhCru::from_buf(&rb[..]).unwrap(), pos);
